@@ -12,13 +12,17 @@
        that nobody consumes);
      * C02_progress_run_partial : the same for the configuration in which a run of an accepted
        program of the fragment ends — premises teq_ok, tc_annotations_typed, topo_reachable.
+     * C02_progress_sync_partial / C02_progress_sync_run_partial : synchronous mode (nothing is ever
+       buffered): every survivor is blocked on its OWN provider channel, receiving (poised) or
+       sending a positive message (offering a result nobody takes); if each of these channels has a
+       client, nobody survives.
    NOT proved: `progress_statement` for all forms (drop / split / DUP / GC: reclamation of dropped
-   sub-trees) and `progress_sync_statement` (synchronous mode: survivors also include senders on
-   client-less top-level channels): covered by the correspondence run only. *)
+   sub-trees), and the non-polarized mode: covered by the correspondence run only. *)
 From stdpp Require Import gmap strings.
 Require Import Grits.Base Grits.ModeDefs Grits.Modes Grits.STypes Grits.Forms Grits.Subst Grits.TcDeps Grits.Expand
                Grits.Tc Grits.TcTop Grits.Runtime Grits.spec.RtTyping Grits.spec.Topo
-               Grits.proofs.RtSafety Grits.proofs.RtInit Grits.proofs.RtProgress Grits.proofs.RtTheorems.
+               Grits.proofs.RtEffect Grits.proofs.RtSafety Grits.proofs.RtInit Grits.proofs.RtProgress
+               Grits.proofs.RtTheorems.
 
 Theorem C02_progress_partial : forall D F teq, teq_laws D teq -> funs_typed D F teq ->
   forall Δ c,
@@ -50,12 +54,41 @@ Theorem C02_progress_run_partial : forall teqD : tenv -> sty -> sty -> Prop,
     ((forall k, alive c k -> exists o, obj_in c o /\ k ∈ refs o) -> procs c = ∅).
 Proof. exact progress_run_partial. Qed.
 
-(* non-vacuity: the example program of the fragment ends in quiescence with no process left *)
+Theorem C02_progress_sync_partial : forall D F teq, teq_laws D teq -> funs_typed D F teq ->
+  forall Δ c, cfg_typed D F teq Δ c -> Topo c -> buffers_empty c -> quiescent Sync D F c ->
+    (forall self p, procs c !! self = Some p ->
+       exists k, own_chan p k /\
+         (action_of Sync D p = ARecv k \/ exists m, action_of Sync D p = ASend k m /\ is_pos_rule (m_rule m) = true)) /\
+    ((forall k, (exists self p, procs c !! self = Some p /\ own_chan p k) ->
+                exists o, obj_in c o /\ k ∈ refs o) -> procs c = ∅).
+Proof. exact progress_sync_partial. Qed.
+
+Theorem C02_progress_sync_run_partial : forall teqD : tenv -> sty -> sty -> Prop,
+  (forall p p', typecheck p = Accept p' -> teq_laws (p_types p') (teqD (p_types p'))) ->
+  (forall p p', typecheck p = Accept p' -> in_fragment p' -> static_typed (teqD (p_types p')) p') ->
+  (forall p p' md c, typecheck p = Accept p' -> in_fragment p' -> is_np md = false ->
+                     reachable (p_types p') (p_funs p') md (init_config p') c -> Topo c) ->
+  forall p p', typecheck p = Accept p' -> in_fragment p' ->
+  forall fuel pick c,
+    exec_run fuel pick Sync (p_types p') (p_funs p') (init_config p') = RQuiescent c ->
+    (forall self pr, procs c !! self = Some pr ->
+       exists k, own_chan pr k /\
+         (action_of Sync (p_types p') pr = ARecv k \/
+          exists m, action_of Sync (p_types p') pr = ASend k m /\ is_pos_rule (m_rule m) = true)) /\
+    ((forall k, (exists self pr, procs c !! self = Some pr /\ own_chan pr k) ->
+                exists o, obj_in c o /\ k ∈ refs o) -> procs c = ∅).
+Proof. exact progress_sync_run_partial. Qed.
+
+(* non-vacuity: the example program of the fragment ends in quiescence with no process left
+   (synchronous: the top-level provider stays blocked offering its result on a client-less channel) *)
 Example C02_example_runs :
   run_example Async (fun _ _ => 0%nat) = Some (0%nat, ["served"; "done"], true) /\
-  run_example Async (fun _ n => pred n) = Some (0%nat, ["served"; "done"], true).
-Proof. split; vm_compute; reflexivity. Qed.
+  run_example Async (fun _ n => pred n) = Some (0%nat, ["served"; "done"], true) /\
+  run_example Sync (fun _ _ => 0%nat) = Some (1%nat, ["served"; "done"], true).
+Proof. repeat split; vm_compute; reflexivity. Qed.
 
 Print Assumptions C02_progress_partial.
 Print Assumptions C02_progress_run_partial.
+Print Assumptions C02_progress_sync_partial.
+Print Assumptions C02_progress_sync_run_partial.
 Print Assumptions C02_example_runs.
